@@ -3273,8 +3273,12 @@ namespace adept {
 	      rhs.set_location(i, rhs_ind);
 	      is_gap = false;
 	    }
-	    data_[index] = rhs.next_value_and_gradient(*ADEPT_ACTIVE_STACK, rhs_ind);
-	    ADEPT_ACTIVE_STACK->push_lhs(gradient_index()+index); // What if RHS not active?
+	    // An inactive right-hand side (e.g. a passive Array) has no
+	    // gradient index: take its value only
+	    data_[index] = internal::expr_cast<C>::is_active
+	      ? rhs.next_value_and_gradient(*ADEPT_ACTIVE_STACK, rhs_ind)
+	      : rhs.next_value(rhs_ind);
+	    ADEPT_ACTIVE_STACK->push_lhs(gradient_index()+index);
 	  }
 	  else {
 	    is_gap = true;
